@@ -225,6 +225,18 @@ Proof.
       destruct g; try discriminate; (apply builtin_pt; [auto|apply IH; exact H]).
 Qed.
 
+(* what the implementation-side family of literal operator trees tests: an expression the
+   checker calls total never ends in a runtime error (Type mismatch, Division by zero, ...),
+   whatever the state, and prints nothing *)
+Lemma pure_total_no_error P eps n e s er :
+  pure_total e = true -> snd (eval P eps n e s) <> Err er /\ fst (eval P eps n e s) = [].
+Proof.
+  intros H. destruct (pure_total_eval P eps n e s H) as [r [E [T|[v Ev]]]]; rewrite E; cbn [fst snd].
+  - split; [|reflexivity]. intros X. subst r. exact T.
+  - split; [|reflexivity]. intros X. subst r. discriminate X.
+Qed.
+
+
 Lemma hoist_nofun P b s : forallb (fun x => negb (is_fun x)) b = true -> hoist P b s = Ok s.
 Proof.
   revert s. induction b as [|a r IH]; intros s H; [reflexivity|]. cbn [forallb] in H.
